@@ -1,14 +1,59 @@
 ---- MODULE IoGen ----
 (* GEN for C16: every reachable state of Io carries its history in `ops`; printing it from a state constraint  *)
-(* exports every history (BFS: each history once, MaxHist = 3; simulate: random histories up to MaxHist = 5). *)
+(* exports every history (BFS: each history once; simulate: random histories up to MaxHist = 5).  A Write of   *)
+(* a profile size class (>= 4) carries its fit parameters, so the dimensions and the content class of every    *)
+(* concrete model are chosen here and obeyed (and logged) by the harness.                                      *)
 EXTENDS Io, Json
-Emit == PrintT("@@" \o ToJson([h |-> ops]))
+OpOut(o) == [op |-> o.op, p |-> o.p, k |-> o.k, s |-> o.s, prm |-> IF o.op = "W" THEN ParamsOf(o.k, o.s) ELSE <<>>]
+RECURSIVE OpsOut(_)
+OpsOut(os) == IF os = <<>> THEN <<>> ELSE <<OpOut(os[1])>> \o OpsOut(Tail(os))
+Emit == PrintT("@@" \o ToJson([h |-> OpsOut(ops)]))
 \* the two paths are interchangeable file names: BFS export only of histories whose first operation is on p1
 GenBfs == (ops = <<>> \/ ops[1].p = "p1") /\ Emit
-\* simulation: TLC picks uniformly among successor instances (12 Writes against at most 2 Reads); draw the operation
-\* kind first so that about half of the operations are Reads of what was written
-SimNext == IF RandomElement({0, 1}) = 1 /\ \E p \in Paths : lastkind[p] # "none"
-           THEN \E p \in Paths : lastkind[p] # "none" /\ Read(p, lastkind[p])
-           ELSE \E p \in Paths, k \in Kinds, s \in Sizes : Write(p, k, s)
+
+(* ---- input classes (INPUT-CLASSES.md) of a profile, computed from its parameters and shapes; exported as a catalogue ---- *)
+K2Lens == UNION {{b - 1, b, b + 1} : b \in K2Blocks}
+K2Tags(k, s) == {"K2:" \o TypeOf(k, f) \o ":" \o ToString(SerLen(TypeOf(k, f), AbsModel(k, s)[f])) :
+                   f \in {g \in SavedFields(k) : SerLen(TypeOf(k, g), AbsModel(k, s)[g]) \in K2Lens}}
+Min2(a, b) == IF a < b THEN a ELSE b
+K1Tags(k, s) == LET q == ParamsOf(k, s) n == q[1] p == q[2] a == q[3] IN
+    {IF n = p THEN "K1:n=p" ELSE IF n = p + 1 \/ n + 1 = p THEN "K1:n=p+-1" ELSE IF n > p THEN "K1:tall" ELSE "K1:wide"}
+    \cup {IF a = Min2(n - 1, p) THEN "K1:a=rank" ELSE IF a = 1 THEN "K1:a=1" ELSE "K1:1<a<rank"}
+    \cup (IF p = 1 THEN {"K1:p=1"} ELSE {})
+    \cup (IF k = "PLS" THEN {IF q[4] = 1 THEN "K1:ny=1" ELSE "K1:ny>1"} ELSE {})
+ContentTags(k, s) == CASE ContentClass(k, s) = 0 -> {"K4:moderate"}
+                       [] ContentClass(k, s) = 1 -> {"K4:rescaled-1e-9..1e9"}
+                       [] ContentClass(k, s) = 2 -> {"K4:range-ends", "K5:planted-constants", "K9:missing-code-as-value"}
+                       [] ContentClass(k, s) = 3 -> {"K3:offset-1e3-sd"}
+                       [] ContentClass(k, s) = 4 -> {"K3:offset-1e6-sd"}
+\* (mentions ops so that it is evaluated - and printed - only where GenFamily asks for it, not at the start-up of every run of this module)
+Catalogue == ops = <<>> /\ \A k \in Kinds : \A s \in ProfSizes(k) :
+               PrintT("@@" \o ToJson([cat |-> [k |-> k, s |-> s, prm |-> ParamsOf(k, s), tags |-> K2Tags(k, s) \cup K1Tags(k, s) \cup ContentTags(k, s)]]))
+
+\* BFS export of a history family (Shape = "prof" / "rewrite"); the catalogue is printed once, with the empty history
+GenFamily == (ops = <<>> => Catalogue) /\ Emit
+
+\* the generator explores the histories only: the history parts of Io's actions, files and observations left alone
+Skel(A) == A /\ UNCHANGED <<db, lastw, lastread>> /\ held' = held
+\* (the skeleton of ReadAgain needs to know that an object of kind k was filled: a Read of that kind occurs in the history)
+GRead(p, k) == ReadH(p, k) /\ UNCHANGED <<db, lastw, lastread>> /\ held' = IF Reuse = "off" THEN held ELSE [held EXCEPT ![k] = [valid |-> TRUE, res |-> <<>>]]
+GReadAgain(p, k) == ReadAgainH(p, k) /\ UNCHANGED <<db, lastw, lastread, held>>
+GNext == \E p \in Paths, k \in Kinds : \/ \E s \in SizeSet : Skel(WriteH(p, k, s))
+                                       \/ GRead(p, k)
+                                       \/ \E t \in 1..MaxHist : Skel(RewriteH(p, k, t))
+                                       \/ GReadAgain(p, k)
+GenSpec == Init /\ [][GNext]_vars
+
+\* profiles drawn in simulated histories: at most SimRows rows (the large ones are written and read in the profile family)
+SimRows == 450
+\* simulation: TLC picks uniformly among successor instances (many Writes against at most 2 Reads); draw the operation kind first so that
+\* about half of the operations are Reads of what was written, one Write in four is a (mid-sized) profile, and (Rewrites) one operation in six a rewrite
+SimNext == IF RandomElement(1..6) <= 3 /\ \E p \in Paths : lastkind[p] # "none"
+           THEN \E p \in Paths : lastkind[p] # "none" /\ Skel(ReadH(p, lastkind[p]))
+           ELSE IF Rewrites /\ hist >= 1 /\ RandomElement(1..3) = 1
+           THEN \E p \in Paths, k \in Kinds, t \in 1..MaxHist : Skel(RewriteH(p, k, t))
+           ELSE IF RandomElement(1..4) = 1 /\ SizeSet \ Sizes # {}
+           THEN \E p \in Paths, k \in Kinds, s \in SizeSet \ Sizes : s \in ProfSizes(k) /\ ModelRows(k, s) <= SimRows /\ Skel(WriteH(p, k, s))
+           ELSE \E p \in Paths, k \in Kinds, s \in SizeSet \cap Sizes : Skel(WriteH(p, k, s))
 SimSpec == Init /\ [][SimNext]_vars
 ====
